@@ -118,10 +118,29 @@ struct Attempt {
 }
 
 fn attempt<U: Seed>(cell: &OnceInitCell<U, Val>, act: Act, who: u64, runs: &AtomicU64) -> Attempt {
+    attempt_api(cell, act, who, runs, false)
+}
+
+/// `infallible`: go through `get_or_init` (no error channel) whenever the action allows it.
+fn attempt_api<U: Seed>(cell: &OnceInitCell<U, Val>, act: Act, who: u64, runs: &AtomicU64, infallible: bool) -> Attempt {
     let mut ran = false;
     let mut seed_serial = None;
     let mut seed_bumps = 0;
     let r = catch_unwind(AssertUnwindSafe(|| {
+        if infallible && act != Act::Fail {
+            let v = cell.get_or_init(|seed: &mut U| {
+                ran = true;
+                runs.fetch_add(1, SeqCst);
+                seed_serial = seed.serial();
+                seed_bumps = seed.bumps();
+                seed.bump();
+                match act {
+                    Act::Panic => panic!("vh: init panic"),
+                    _ => Val { token: Token::new(), by: who },
+                }
+            });
+            return Ok::<_, &'static str>((v as *const Val as usize, v.by, v.token.is_live()));
+        }
         cell.get_or_try_init(|seed: &mut U| {
             ran = true;
             runs.fetch_add(1, SeqCst);
@@ -165,7 +184,12 @@ fn sequences<U: Seed>(rep: &mut Report, maxlen: usize) {
         for code in 0..3usize.pow(len as u32) {
             rep.eval();
             let seq: Vec<Act> = (0..len).map(|i| acts[(code / 3usize.pow(i as u32)) % 3]).collect();
-            let scen = json!({"seed": U::NAME, "sequence": format!("{seq:?}")});
+            for infallible in [false, true] {
+            if infallible && !seq.iter().any(|a| *a == Act::Panic) {
+                continue;
+            }
+            let scen = json!({"seed": U::NAME, "sequence": format!("{seq:?}"),
+                "api": if infallible { "get_or_init for panicking / succeeding initialisers, get_or_try_init for failing ones" } else { "get_or_try_init" }});
             let mark = ledger::mark();
             let dd0 = ledger::double_drops();
             let runs = AtomicU64::new(0);
@@ -175,7 +199,7 @@ fn sequences<U: Seed>(rep: &mut Report, maxlen: usize) {
             let mut done: Option<(usize, u64)> = None;
             let mut bomb_pending = false;
             for (i, act) in seq.iter().enumerate() {
-                let a = attempt(&cell, *act, i as u64, &runs);
+                let a = attempt_api(&cell, *act, i as u64, &runs, infallible);
                 match done {
                     Some((addr, by)) => {
                         // already initialised: must not run, must return the same reference
@@ -299,10 +323,12 @@ fn sequences<U: Seed>(rep: &mut Report, maxlen: usize) {
                     scen.clone(),
                 );
             }
-            rep.nontrivial(mix(crate::rng::fnv_str(U::NAME), mix(len as u64, code as u64)));
+            rep.nontrivial(mix(crate::rng::fnv_str(U::NAME), mix(len as u64 + 100 * infallible as u64, code as u64)));
             rep.seen("seed_kinds", U::NAME);
-            if code == 5 && len == 3 {
+            rep.seen("init_apis", if infallible { "get_or_init" } else { "get_or_try_init" });
+            if code == 5 && len == 3 && !infallible {
                 rep.sample(scen);
+            }
             }
         }
     }
